@@ -152,7 +152,7 @@ pub fn run(tier: Tier, shard: Shard, stats: &mut Stats) {
                                     if !exp.contains(&got) {
                                         stats.violation(Violation { class: format!("value: {{{key}}} differs from the getter passed through the public formatter"), config: key.into(), history: hist, detail: format!("rendered {:?}, expected one of {:?}", got, exp) });
                                     } else {
-                                        stats.state(hash_of(&(key, &got)), pos != 0 || el > 400);
+                                        stats.state_outcome(hash_of(&(key, &got)), pos != 0 || el > 400);
                                     }
                                 }
                             }
@@ -213,7 +213,7 @@ pub fn run(tier: Tier, shard: Shard, stats: &mut Stats) {
                             if !ok {
                                 stats.violation(Violation { class: "value: a placeholder in a multi-line template does not show the current value".into(), config: "multi-key".into(), history: hist, detail: format!("rendered {:?}, expected {:?}", lines, want) });
                             } else {
-                                stats.state(hash_of(&("multi", ti, tw, pos, msg.len())), true);
+                                stats.state_outcome(hash_of(&("multi", ti, tw, pos, msg.len())), true);
                             }
                         }
                     }
@@ -308,7 +308,7 @@ pub fn run(tier: Tier, shard: Shard, stats: &mut Stats) {
                 } else if got_resets.iter().any(|e| *e != "reset pos=0 finished=false") {
                     stats.violation(Violation { class: "custom key: tracker reset does not see the reset state of the bar".into(), config: "custom key".into(), history: hist, detail: format!("{:?}", l) });
                 } else {
-                    stats.state(hash_of(&(&line, ticks, resets)), true);
+                    stats.state_outcome(hash_of(&(&line, ticks, resets)), true);
                 }
             }
         }
